@@ -195,8 +195,8 @@ func init() {
 //
 // A ciphertext's metadata says whether its polynomials are in the NTT domain and whether they are in Montgomery form.
 // An encryption routine that adapts its work to `ct.IsNTT` has to adapt the sampled error to `ct.IsMontgomery` as
-// well (or convert it to Montgomery form unconditionally when its contract says the mask already is): an error left in
-// plain form inside a Montgomery-form ciphertext is an error multiplied by 2^-64 mod q, i.e. noise of the size of q.
+// well: an error left in plain form inside a Montgomery-form ciphertext is an error multiplied by 2^-64 mod q, one
+// converted unconditionally inside a plain-form target is multiplied by 2^64 — noise of the size of q either way.
 func scanMontErr(c *core.Ctx) []ob {
 	var out []ob
 	n := 0
@@ -240,8 +240,10 @@ func scanMontErr(c *core.Ctx) []ob {
 		n++
 		fkey := core.FuncKey(pk, fd)
 		key := "MONTERR:" + fkey
-		if usesMont || mform {
-			out = append(out, okOb("MONTERR", key, c.Rel(fd.Pos()), "the Montgomery flag of the target is consulted (or the error converted unconditionally)", true))
+		if usesMont {
+			out = append(out, okOb("MONTERR", key, c.Rel(fd.Pos()), "the Montgomery flag of the target is consulted", true))
+		} else if mform {
+			out = append(out, violOb("MONTERR", key, c.Rel(fd.Pos()), fmt.Sprintf("%s adapts to the NTT flag of the ciphertext it fills but converts the sampled error to Montgomery form whatever its Montgomery flag says: for a target declared in plain form (IsMontgomery=false) the error is multiplied by 2^64 mod q, i.e. noise of the size of the modulus", fkey)))
 		} else {
 			out = append(out, violOb("MONTERR", key, c.Rel(fd.Pos()), fmt.Sprintf("%s adapts to the NTT flag of the ciphertext it fills but never looks at its Montgomery flag nor converts the sampled error with MForm: for a ciphertext declared in Montgomery form the error is added in plain form, which decrypts as noise of the size of the modulus", fkey)))
 		}
